@@ -18,8 +18,8 @@ fn same_re(x: f64, y: f64) -> bool {
     b64(x) == b64(y) || (x.is_nan() && y.is_nan())
 }
 
-macro_rules! nonint_harness {
-    ($name:ident, $sname:ident, $mk:expr) => {
+macro_rules! nonint_dd {
+    ($name:ident, $mk:expr) => {
         /// dual (op) dual
         #[kani::proof]
         #[kani::solver(cvc5)]
@@ -40,6 +40,10 @@ macro_rules! nonint_harness {
             assert!(same_re((a1 - b1).re, ra - rb), "(a-b).re == a.re - b.re");
             assert!(same_re((a1 * b1).re, ra * rb), "(a*b).re == a.re * b.re");
         }
+    };
+}
+macro_rules! nonint_ds {
+    ($sname:ident, $mk:expr) => {
         /// dual (op) scalar
         #[kani::proof]
         #[kani::solver(cvc5)]
@@ -60,10 +64,13 @@ macro_rules! nonint_harness {
         }
     };
 }
-nonint_harness!(c06_nonint_dual64, c06_nonint_scalar_dual64, any_dual64());
-nonint_harness!(c06_nonint_dual2_64, c06_nonint_scalar_dual2_64, any_dual2_64());
-nonint_harness!(c06_nonint_hyperdual64, c06_nonint_scalar_hyperdual64, any_hyperdual64());
-nonint_harness!(c06_nonint_dual3_64_with_div_cvc5_abort, c06_nonint_scalar_dual3_64, any_dual3_64());
+nonint_dd!(c06_nonint_dual64, any_dual64());
+nonint_dd!(c06_nonint_dual2_64, any_dual2_64());
+nonint_dd!(c06_nonint_hyperdual64, any_hyperdual64());
+nonint_ds!(c06_nonint_scalar_dual64, any_dual64());
+nonint_ds!(c06_nonint_scalar_dual2_64, any_dual2_64());
+nonint_ds!(c06_nonint_scalar_hyperdual64, any_hyperdual64());
+nonint_ds!(c06_nonint_scalar_dual3_64, any_dual3_64());
 
 /// Dual3: `+ - *` on the full domain.  `/` is split off (below) because CBMC's SMT2 back end
 /// aborts on `Dual3::div` ("flatten2bv of a non-constant FPA-encoded float is unsupported",
